@@ -44,8 +44,8 @@ type Engine struct {
 	impls         map[string]*Contract   // "fn as iface" -> implements directive
 	footprints    map[string][]string    // opaque spec function -> heap names its body reads
 	fpBusy        map[string]bool
-	immutable     map[string]bool // heap names of fields never written after construction (checked syntactically)
-	guards        map[string]string // field heap name -> name of the mutex field of the same struct that guards it
+	immutable     map[string]bool        // heap names of fields never written after construction (checked syntactically)
+	guards        map[string]string      // field heap name -> name of the mutex field of the same struct that guards it
 	ghostHooks    map[string][]*Contract // "<function>|call:<callee>" / "<function>|delete" / "<function>|mapupdate" -> ghost assignments
 	globalConsts  map[string]string      // "<pkgpath>.<Name>" -> integer literal (package variables that are never reassigned)
 	trustedList   []string
@@ -924,7 +924,7 @@ func (e *Engine) Prelude() string {
 		fmt.Fprintf(&b, "(declare-fun %s (Int) Bool)\n", k)
 		it := e.ifaceTypes[k].Underlying().(*types.Interface)
 		for i, t := range e.u.tagTypes {
-			fmt.Fprintf(&b, "(assert (= (%s %d) %v))\n", k, i+1, types.Implements(t, it))
+			fmt.Fprintf(&b, "(assert (= (%s %d) %v))\n", k, e.u.tagIDs[i], types.Implements(t, it))
 		}
 	}
 	for _, d := range e.extraDecls {
@@ -982,6 +982,7 @@ func (e *Engine) selectSendHook(f *Frame, x *ssa.Select, i int, idx Term, st *St
 		f.un.obligeNamed(st, fmt.Sprintf("chan:%s#%s@%s", TypeKey(et), inv.label(), f.un.siteTag("chan:"+TypeKey(et), x.Pos())), "channel", inv.Text, f.un.posOf(x.Pos()), g)
 	}
 }
+
 // callbackKey names a function value by where it comes from: "T.field" for a struct field,
 // "<function>.param" for a parameter.
 func callbackKey(fn *ssa.Function, v ssa.Value) string {
